@@ -177,7 +177,7 @@ Print Assumptions C01_ExtendedReport_alloc.
 (* BEGIN source-translation (generated by tools/mksourceprops.py; do not edit by hand) *)
 (* the decoders as translated from the Go source text on this run never panic and never run out of fuel (from the model-level totality theorems above through the equivalences).
    Gen/Funcs.v (module GoSrc) is written by srcgen/trans.go from /repo on every run; Lib/GoSem.v gives the meaning of its primitives. *)
-From RTCP Require Import Lib.Base Lib.GoSem Gen.Consts Gen.Funcs Model.Header Model.Reports Model.Sdes Model.ByeApp Model.Feedback Model.Twcc Model.Ccfb Model.Packet Proofs.SourceEquiv Proofs.SrcConv Proofs.SourceByeApp Proofs.SourceCcfb Proofs.SourceCompound Proofs.SourceCompoundClosed Proofs.SourceFeedback1 Proofs.SourceFeedback2 Proofs.SourcePacket Proofs.SourceRR Proofs.SourceSR Proofs.SourceSdes Proofs.SourceTwccDec Proofs.SourceTwccEnc.
+From RTCP Require Import Lib.Base Lib.GoSem Gen.Consts Gen.Funcs Model.Header Model.Reports Model.Sdes Model.ByeApp Model.Feedback Model.Twcc Model.Ccfb Model.Packet Proofs.SourceEquiv Proofs.SrcConv Proofs.SourceFeedback2 Proofs.SourceSR Proofs.SourceRR Proofs.SourceSdes Proofs.SourceByeApp Proofs.SourceFeedback1 Proofs.SourceCcfb Proofs.SourceTwccEnc Proofs.SourceTwccDec Proofs.SourcePacket.
 Module C01_SourceFeedback2.
 Import Proofs.SourceFeedback2.
 Local Open Scope Z_scope.
